@@ -69,21 +69,45 @@ def generate(repo, outdir):
         extra = names - ALLOWED.get(f, set())
         if extra:
             raise Unsupported("new process-wide mutable state in %s: %s (review it and extend translator/gen_purity.py)" % (f, sorted(extra)))
-    # ---- copy-on-write in get_encoding
+    # ---- copy-on-write in get_encoding: every mutation of a local table is preceded (in source order) by an assignment
+    # of that local from a fresh copy, never from the shared class-level table
     tree = ast.parse(open(os.path.join(repo, "pdfminer", "encodingdb.py"), encoding="utf-8").read())
     ge = find_def(tree, "EncodingDB", "get_encoding")
-    copy_first = False
-    guard = [n for n in ge.body if isinstance(n, ast.If) and ast.unparse(n.test) == "diff"]
-    if len(guard) != 1:
-        raise Unsupported("get_encoding: `if diff:` not found")
-    body = guard[0].body
-    first = body[0]
-    if isinstance(first, ast.Assign) and ast.unparse(first) == "cid2unicode = cid2unicode.copy()":
-        copy_first = True
-    mutations_outside = [n for n in ast.walk(ge) if isinstance(n, (ast.Subscript,)) and isinstance(getattr(n, "ctx", None), ast.Store)
-                         and ast.unparse(n.value) == "cid2unicode" and n not in list(ast.walk(guard[0]))]
-    if mutations_outside:
-        copy_first = False
+
+    def is_private(expr):
+        if isinstance(expr, ast.Call) and isinstance(expr.func, ast.Attribute) and expr.func.attr == "copy" and not expr.args:
+            return True
+        if isinstance(expr, ast.Call) and isinstance(expr.func, ast.Name) and expr.func.id == "dict":
+            return True
+        if isinstance(expr, (ast.Dict, ast.DictComp)):
+            return True
+        return False
+    assigns = {}      # name -> [(line, private?)]
+    for n in ast.walk(ge):
+        if isinstance(n, ast.Assign):
+            for t in n.targets:
+                if isinstance(t, ast.Name):
+                    assigns.setdefault(t.id, []).append((n.lineno, is_private(n.value)))
+        elif isinstance(n, ast.AnnAssign) and isinstance(n.target, ast.Name) and n.value is not None:
+            assigns.setdefault(n.target.id, []).append((n.lineno, is_private(n.value)))
+    MUTATORS = {"pop", "update", "setdefault", "clear", "popitem", "__setitem__", "__delitem__"}
+    mutations = []    # (name, line)
+    for n in ast.walk(ge):
+        if isinstance(n, ast.Subscript) and isinstance(n.ctx, (ast.Store, ast.Del)) and isinstance(n.value, ast.Name):
+            mutations.append((n.value.id, n.lineno))
+        if isinstance(n, ast.Call) and isinstance(n.func, ast.Attribute) and n.func.attr in MUTATORS \
+                and isinstance(n.func.value, ast.Name):
+            mutations.append((n.func.value.id, n.lineno))
+        if isinstance(n, ast.Call) and isinstance(n.func, ast.Attribute) and n.func.attr in MUTATORS \
+                and not isinstance(n.func.value, ast.Name):
+            raise Unsupported("get_encoding mutates %s (not a local name)" % ast.unparse(n.func.value))
+    if not mutations:
+        raise Unsupported("get_encoding: no overlay of the Differences found")
+    copy_first = True
+    for name, line in mutations:
+        before = [(l, p) for l, p in assigns.get(name, []) if l < line]
+        if not before or not max(before)[1]:
+            copy_first = False
     # ---- use_cmap copies
     tree = ast.parse(open(os.path.join(repo, "pdfminer", "cmapdb.py"), encoding="utf-8").read())
     uc = find_def(tree, "CMap", "use_cmap")
